@@ -238,7 +238,20 @@ def assign(text):
                 if r is None and key in d:
                     r = d[key]
         table.append(r if r is not None else -1.0)
-    return {"names": [a.name for a in atoms], "formal": formal, "cycles": snaps, "final": final,
+    # the documented interface of the equilibration itself with other cycle counts (conservation does not depend on it)
+    other = []
+    for nc in (3, 12):
+        try:
+            m2 = pmol2.Mol2Molecule()
+            m2.read(io.StringIO(text))
+            at2 = list(m2.atoms.values())
+            for a in at2:
+                a.charge = a.formal_charge
+            peoe.equilibrate(at2, num_cycles=nc)
+            other.append({"nc": nc, "final": [a.charge for a in at2]})
+        except Exception as e:
+            other.append({"nc": nc, "exc": type(e).__name__})
+    return {"names": [a.name for a in atoms], "formal": formal, "cycles": snaps, "final": final, "other_cycle_counts": other,
             "radii": [a.radius for a in atoms], "table": table, "scale": scale, "ncycles": peoe.NUM_CYCLES}
 
 
@@ -355,8 +368,19 @@ def run(ctx):
                        "scale1000": int(round(o["scale"] * 1000)), "radii": [int(round(r * 1e4)) for r in o["radii"]],
                        "tableradii": [int(round(r * 1e4)) for r in o["table"]], "q1": [], "q2": [], "atoms": [],
                        "what": f"{fname} {variant}"})
+        if variant == "rewritten":
+            for alt in o.get("other_cycle_counts", []):
+                if "final" in alt:
+                    traces.append(dict(traces[-1], id=len(traces) + 1, cycles=[], final=[mq(q) for q in alt["final"]],
+                                       what=f"{fname} equilibrate(num_cycles={alt['nc']})"))
+                    ctx.evaluations += 1
+        base_trace = next(t for t in reversed(traces) if t["what"] == f"{fname} {variant}")
         if len(o["cycles"]) != o["ncycles"]:
-            raise core.MachineryError(f"{fname} {variant}: recorded {len(o['cycles'])} cycle snapshots for {o['ncycles']} cycles")
+            # the loop of equilibrate is not shaped as the snapshot hook expects (it keys on the local `icycle`): judge the
+            # final state only for this molecule and say so
+            if len(ctx.drift) < 20:
+                ctx.drift.append({"molecule": fname, "variant": variant, "per_cycle_snapshots": len(o["cycles"]), "cycles": o["ncycles"]})
+            base_trace["cycles"] = [base_trace["cycles"][-1]] if base_trace["cycles"] else []
         if any(o["formal"]) or len(comps) > 1:
             ctx.nontrivial.add((fname, variant))
         byfile.setdefault(fname, {})[variant] = (o, m)
